@@ -53,6 +53,9 @@ def run_app(problem, cfg, tmpdir):
         for p in ('x', 'y', 'u', 'v', 'rho', 'p', 'au', 'av', 'ident'):
             if p in pa.properties:
                 d[p] = pa.get(p, only_real_particles=True)[order].copy()
+        if 'sid' in pa.properties:
+            d['sid'] = pa.get('sid', only_real_particles=True).reshape(
+                -1, 3)[order].ravel().copy()
         out[pa.name] = d
     return out, app.solver.count
 
